@@ -1,0 +1,36 @@
+//go:build verif
+// +build verif
+
+package packet
+
+// verif_hooks_enc.go — add-only exports of unexported encoder helpers for the
+// verification harness (/verif, property C01). Built only with `-tags verif`.
+
+// VerifVarintLen exports varintLen.
+func VerifVarintLen(n uint64) int { return varintLen(n) }
+
+// VerifHeaderLen exports headerLen.
+func VerifHeaderLen(rl int) int { return headerLen(rl) }
+
+// VerifWriteVarint exports writeVarint.
+func VerifWriteVarint(buf []byte, num uint64, t Type) (int, error) {
+	return writeVarint(buf, num, t)
+}
+
+// VerifEncodeHeader exports encodeHeader.
+func VerifEncodeHeader(dst []byte, flags byte, rl int, tl int, t Type) (int, error) {
+	return encodeHeader(dst, flags, rl, tl, t)
+}
+
+// VerifWriteLPBytes exports writeLPBytes.
+func VerifWriteLPBytes(buf []byte, bytes []byte, t Type) (int, error) {
+	return writeLPBytes(buf, bytes, t)
+}
+
+// VerifWriteUint exports writeUint (widths 1 and 2 are the ones the encoders use).
+func VerifWriteUint(buf []byte, num uint64, width int, t Type) (int, error) {
+	return writeUint(buf, num, width, t)
+}
+
+// VerifDefaultFlags exports Type.defaultFlags.
+func VerifDefaultFlags(t Type) byte { return t.defaultFlags() }
